@@ -70,6 +70,7 @@ type ModInfo struct {
 	escElems  map[string]bool
 	reads     map[*ssa.Function]*ModSet
 	emits     map[*ssa.Function]*emitSet
+	allFmts   map[string]bool
 	rawMods   map[*ssa.Function]*ModSet
 	checkPureDecls func()
 	fvOnly    map[*ssa.Function]map[string]bool
@@ -853,7 +854,7 @@ func (mi *ModInfo) Reads(f *ssa.Function) *ModSet {
 
 // IsParametric: the function lives in a file declared callback-parametric.
 func (w *World) IsParametric(f *ssa.Function) bool {
-	if w.Contracts == nil || len(w.Contracts.ParametricFiles) == 0 || f == nil {
+	if w.Contracts == nil || (len(w.Contracts.ParametricFiles) == 0 && len(w.Contracts.ParametricFuncs) == 0) || f == nil {
 		return false
 	}
 	if v, ok := w.parametric[f]; ok {
@@ -864,6 +865,58 @@ func (w *World) IsParametric(f *ssa.Function) bool {
 	}
 	file := w.FileOfFunc(f)
 	res := false
+	declared := f
+	for declared != nil && !w.Contracts.ParametricFuncs[FuncKey(declared)] {
+		declared = declared.Parent()
+	}
+	if declared != nil {
+		// declared per function (closures nested in it included): checked, not trusted. Every dynamic call must go
+		// to a function-typed parameter of the declared function, directly, through the cell a captured parameter
+		// lives in, or (inside a nested closure) through a captured cell.
+		paramCell := func(a *ssa.Alloc) bool {
+			n := 0
+			for _, r := range *a.Referrers() {
+				if st, ok := r.(*ssa.Store); ok && st.Addr == a {
+					if _, isP := st.Val.(*ssa.Parameter); !isP {
+						return false
+					}
+					n++
+				}
+			}
+			return n == 1
+		}
+		for _, b := range f.Blocks {
+			for _, ins := range b.Instrs {
+				ci, ok := ins.(ssa.CallInstruction)
+				if !ok {
+					continue
+				}
+				c := ci.Common()
+				if c.IsInvoke() || c.StaticCallee() != nil {
+					continue
+				}
+				if _, isB := c.Value.(*ssa.Builtin); isB {
+					continue
+				}
+				okv := false
+				switch x := c.Value.(type) {
+				case *ssa.Parameter:
+					okv = true
+				case *ssa.UnOp:
+					switch y := x.X.(type) {
+					case *ssa.Alloc:
+						okv = paramCell(y)
+					case *ssa.FreeVar:
+						okv = f != declared
+					}
+				}
+				if !okv {
+					panic(unsupported("callback-parametric func %s: %s calls a function value that is not one of the declared function's parameters (%s)", FuncKey(declared), FuncKey(f), c.Value))
+				}
+			}
+		}
+		res = true
+	}
 	for _, p := range w.Contracts.ParametricFiles {
 		if strings.HasSuffix(file, "/"+p) {
 			res = true
